@@ -102,8 +102,8 @@ let params_of (t : string list) : Sched.params = match t with
 let optz = function "-" -> None | s -> Some (z s)
 let op_of (s : string) : Sched.op =
   if s = "n" then Sched.Next
-  else if S.get s 0 = 'f' then Sched.Fin (z (S.sub s 1 (S.length s - 1)))
-  else if S.get s 0 = 'r' || S.get s 0 = 'l' then begin   (* 'l': the implementation is driven by for-loops with break; the model's Run is the same thing *)
+  else if S.get s 0 = 'f' || S.get s 0 = 'g' then Sched.Fin (z (S.sub s 1 (S.length s - 1)))   (* 'g': the implementation is handed a numpy integer *)
+  else if S.get s 0 = 'r' || S.get s 0 = 'l' || S.get s 0 = 'L' then begin   (* 'l': the implementation is driven by for-loops with break; the model's Run is the same thing *)
     match S.split_on_char ':' (S.sub s 1 (S.length s - 1)) with
     | [k; lim] -> Sched.Run (z k, nat_of_int (int_of_string lim))
     | _ -> failwith ("op " ^ s) end
@@ -206,6 +206,7 @@ let run_val (id : string) (t : string list) =
   | ["mxrr"; cm; uf; rd; wd] -> string_of_z (RevSeq.mxrr (z cm) (z uf) (z rd) (z wd))
   | "argmin" :: l -> string_of_z (RevSeq.argmin (L.map z l))
   | "act" :: rest -> act_case rest
+  | ["collect"; _; _] -> "ok"   (* the same laws on actions that are kept and compared afterwards: decided on the implementation *)
   | ["pairs"; _; _] -> "ok"   (* equality laws of directly constructed actions: decided on the implementation; the model's act_eqb is characterised in Props/C18 *)
   | ["beta"; x; y] -> string_of_z (BinomDef.beta (nat_of_int (int_of_string x)) (nat_of_int (int_of_string y)))
   | _ -> failwith ("val case: " ^ S.concat " " t) in
